@@ -113,10 +113,23 @@ Theorem receive_rejects s f :
   is_snapshot f = false -> extends_pos s f = false -> op_receive s f = (Failed, s).
 Proof. intros H1 H2. unfold op_receive. rewrite H1, H2. reflexivity. Qed.
 Theorem forward_rejects s f ok :
-  is_snapshot f = false -> extends_pos s f = false -> op_forward s f ok = (Failed, s).
-Proof. intros H1 H2. unfold op_forward. rewrite H1, H2. reflexivity. Qed.
+  extends_pos s f = false -> op_forward s f ok = (Failed, s).
+Proof. intros H2. unfold op_forward. rewrite H2. reflexivity. Qed.
 Theorem forward_rejects_corrupt s f : op_forward s f false = (Failed, s).
-Proof. unfold op_forward. destruct (negb (is_snapshot f) && negb (extends_pos s f)); reflexivity. Qed.
+Proof. unfold op_forward. destruct (negb (extends_pos s f)); reflexivity. Qed.
+(* a whole-database file is only taken by a database that is still at position 0 *)
+Theorem forward_whole_db_only_at_zero s f ok s' :
+  is_snapshot f = true -> op_forward s f ok = (Done, s') -> txid s = 0 /\ l_pre f = chk s.
+Proof.
+  intros Hs H. unfold op_forward in H. destruct (extends_pos s f) eqn:E; cbn [negb] in H; [|discriminate].
+  unfold extends_pos in E. apply andb_true_iff in E. destruct E as [E1 E2].
+  unfold is_snapshot in Hs. apply N.eqb_eq in Hs, E1, E2. split; [lia|exact E2].
+Qed.
+Lemma forward_accepts_spec s f ok : forward_accepts (txid s) (chk s) (l_min f) (l_pre f) = 0 -> op_forward s f ok = (Failed, s).
+Proof.
+  unfold forward_accepts. intros H. apply forward_rejects. unfold extends_pos.
+  destruct ((l_min f =? txid s + 1) && (l_pre f =? chk s)); [discriminate|reflexivity].
+Qed.
 
 (* ---- retention ---- *)
 Definition removable (old : ltxrec -> bool) (backup : bool) (hwm : N) (f : ltxrec) : bool :=
